@@ -57,6 +57,28 @@ func c11(c *Ctx) {
 		return ok && len(r.Results) == 2 && p.Render(returnedValue(r, 0)) != "nil" && r.Block().Index != 1
 	}, gs(GP("(litefs.(*DB).TryAcquireWriteLock(p0) == nil)", false)), 1, "AcquireWriteLock returns a guard set only when the attempt succeeded", "")
 
+	{
+		bad := ""
+		n := 0
+		for _, in := range Instrs(c.F(aw), IsReturn) {
+			r := in.(*ssa.Return)
+			if len(r.Results) != 2 || (r.Block().Index != 0 && len(r.Block().Preds) == 0) {
+				continue
+			}
+			n++
+			if p.Render(returnedValue(r, 0)) == "nil" && !p.knownNonNil(returnedValue(r, 1), r.Block()) {
+				bad = "return at " + c.where(r) + " yields a nil guard set with an error that may be nil: " + p.Render(returnedValue(r, 1))
+			}
+		}
+		d := "AcquireWriteLock never returns (nil, nil): a nil guard set always comes with a non-nil error"
+		w := "every caller does 'if err != nil { return }; defer guard.Unlock()': (nil, nil) is a nil dereference, or worse, an internal writer running without the lock set"
+		if bad != "" {
+			c.fail("full-set/acquire-nil-implies-error", "K6/K7", d, w, bad, n)
+		} else {
+			c.ok("full-set/acquire-nil-implies-error", "K6/K7", d, n)
+		}
+	}
+
 	// ---- nolock family ----
 	family := map[string]bool{
 		"litefs.(*DB).ApplyLTXNoLock": true, "litefs.(*DB).WriteLTXFileAt": true, "litefs.(*DB).CheckpointNoLock": true, "litefs.(*DB).recover": true,
